@@ -386,20 +386,46 @@ def fieldmapping_standins(ctx):
     class ConditionOR:
         pass
 
-    @_dc.dataclass
-    class _Item:
-        field: object
-        value: list
-        auto_modifiers: bool = True
-        applied_processing_items: set = _dc.field(default_factory=set, compare=False)
-        plain_disabled: bool = _dc.field(default=False, compare=False)
-        def disable_conversion_to_plain(self): self.plain_disabled = True
+    # stand-in detection item with the fields of the real dataclass, in the order of the source (so that positional
+    # construction, keyword construction and dataclasses.replace all mean what they mean for the real class)
+    DI = "sigma.rule.detection.SigmaDetectionItem"
+    real_fields = prog.dataclass_fields(DI)
+    if not {"field", "value", "auto_modifiers"} <= set(real_fields):
+        raise AnalysisError(f"anchor vanished: {DI} no longer has the fields field/value/auto_modifiers")
+    DEFAULTS = {"value_linking": ConditionOR, "negated": False, "source": None, "auto_modifiers": True}
+    specs = []
+    for fname, st in real_fields.items():
+        init = _field_flag(st, "init")
+        cmp_ = _field_flag(st, "compare")
+        if fname == "applied_processing_items":
+            continue
+        if init is False:
+            specs.append((fname, object, _dc.field(init=False, compare=False, default=None)))
+        elif st.value is None:
+            specs.append((fname, object))
+        else:
+            specs.append((fname, object, _dc.field(default=DEFAULTS.get(fname), compare=cmp_ is not False)))
+    specs.append(("applied_processing_items", set, _dc.field(init=False, default_factory=set, compare=False)))
+    specs.append(("plain_disabled", bool, _dc.field(init=False, default=False, compare=False)))
+    specs.append(("modifiers_applied", int, _dc.field(init=False, default=0, compare=False)))
 
-    env = {"SigmaString": S, "SpecialChars": sc, "SigmaFieldReference": SigmaFieldReference, "SigmaDetection": SigmaDetection, "ConditionOR": ConditionOR, "dataclasses": _dc}
+    def _post_init(self):
+        self.original_value = list(self.value)
+        if self.auto_modifiers:
+            self.modifiers_applied += 1      # the real class would apply the modifiers to the values again
+
+    def _disable(self):
+        self.plain_disabled = True
+
+    _Item = _dc.make_dataclass("SigmaDetectionItem", specs, namespace={"__post_init__": _post_init, "disable_conversion_to_plain": _disable})
+
+    env = {"SigmaString": S, "SpecialChars": sc, "SigmaFieldReference": SigmaFieldReference, "SigmaDetection": SigmaDetection, "ConditionOR": ConditionOR, "dataclasses": _dc,
+           "SigmaDetectionItem": _Item, "replace": _dc.replace}
     IK = {"max_steps": 8000}
 
-    def run_item(field, mapping, gate, values, applied=("earlier",)):
-        item = _Item(field, list(values))
+    def run_item(field, mapping, gate, values, applied=("earlier",), **attrs):
+        item = _Item(field=field, modifiers=attrs.pop("modifiers", []), value=list(values), auto_modifiers=False, **attrs)
+        item.auto_modifiers = True
         item.applied_processing_items = set(applied)
         tracked, mapped = [], []
         pi = None if gate is None else type("PI", (), {"match_field_name": lambda s_, f_: gate, "match_field_in_value": lambda s_, v: gate, "identifier": "pi"})()
@@ -414,6 +440,15 @@ def fieldmapping_standins(ctx):
         return item, res
 
     return _types.SimpleNamespace(S=S, wm=wm, sc=sc, FM=FM, env=env, IK=IK, SigmaDetection=SigmaDetection, ConditionOR=ConditionOR, SigmaFieldReference=SigmaFieldReference, run_item=run_item)
+
+
+def _field_flag(st: ast.AnnAssign, name: str):
+    v = st.value
+    if isinstance(v, ast.Call) and call_name(v).split(".")[-1] == "field":
+        for k in v.keywords:
+            if k.arg == name and isinstance(k.value, ast.Constant):
+                return bool(k.value.value)
+    return None
 
 
 def r5_keyword_wildcards(ctx) -> None:
@@ -539,10 +574,22 @@ def r7_one_to_many(ctx) -> None:
             probs.append(f"alternatives linked by {res.item_linking!r}")
         if [getattr(x, "field", None) for x in res.detection_items] != ["f1", "f2", "f3"] or any(list(x.value) != ["v"] for x in res.detection_items):
             probs.append(f"alternatives {[(getattr(x, 'field', None), getattr(x, 'value', None)) for x in res.detection_items]} instead of the item under each of f1, f2, f3")
+    # each alternative is the item itself under another name: negation, linking of the values, modifiers and location are
+    # kept, the (already modified) values are not modified a second time
+    item2, res2 = fm.run_item("x", ["f1", "f2"], None, ["v", "w"], modifiers=["M1", "M2"], negated=True, value_linking="AND-LINKED", source="SRC")
+    if isinstance(res2, fm.SigmaDetection):
+        for alt in res2.detection_items:
+            for attr, want in (("negated", True), ("value_linking", "AND-LINKED"), ("modifiers", ["M1", "M2"]), ("source", "SRC")):
+                if getattr(alt, attr, "<missing>") != want:
+                    probs.append(f"the alternative under {getattr(alt, 'field', '?')} has {attr}={getattr(alt, attr, '<missing>')!r}, the mapped item had {want!r}")
+            if getattr(alt, "modifiers_applied", 0):
+                probs.append(f"the alternative under {getattr(alt, 'field', '?')} applies the modifiers to the already modified values again")
+    else:
+        probs.append(f"a negated, all-linked item mapped to two names gives {res2!r}")
     if not probs:
         r.ok("C12.R7", gq.qual, "a field mapped to three names yields SigmaDetection(one item per name, item_linking=ConditionOR) (interpreted)", gq.loc)
     else:
-        r.violation("C12.R7", gq.qual, f"SigmaDetection(mapped items, item_linking=ConditionOR): {probs[0]}", "alternatives built by the transformation are not OR-linked: a SigmaDetection of detection items defaults to AND, so a one-to-many mapping would require all mapped fields to match", gq.loc)
+        r.violation("C12.R7", gq.qual, f"SigmaDetection(mapped items, item_linking=ConditionOR): {probs[0]}", "a one-to-many mapping must give the OR of the item under each mapped name, each alternative being the item itself (negation, value linking, modifiers, location kept; values not modified again): a SigmaDetection of detection items defaults to AND, and an alternative that loses an attribute no longer means what a hand-written rule with that field means", gq.loc)
     sites = [(TR + ".values.HashesFieldsDetectionItemTransformation._create_new_detection_items", None)]
     for q, first in sites:
         f = prog.func(q)
